@@ -14,6 +14,9 @@
          (outputs ("a/b/X.qml" (accepted true) (built true) (diags "…" …) (widgets ("QWidget" "windowTitle") ("A"))
                    (customwidgets ("A" "QWidget" "a.h"))) …))          ; in the order of `sources`
 
+  `c18-cliout` (same arguments) answers what the command `qmluic generate-ui <sources in that order>` does:
+    (cli (exit 0|1) (written "a/x.ui" …))     ; sorted; model = `cliRun` over the per-source outcomes
+
   `spec-c18-dirs` (same arguments) answers `(dirs …)` computed by the specification side: saturation of
   the source directories under "a file with a root object imports, by string, an existing directory".
 -/
@@ -185,6 +188,31 @@ def handleModel (args : List Sexp) : Sexp :=
           .list (.atom "dirs" :: dirs.map Sexp.ofString),
           .list (.atom "modules" :: mods.map fun (p, m) => moduleSexp r.env look p m),
           .list (.atom "outputs" :: outs)]
+
+/-- the command line: `cliRun` over the outcome of every source -/
+def handleCli (args : List Sexp) : Sexp :=
+  match request? args with
+  | none => .list [.atom "bad-request"]
+  | some r =>
+    match invalidReason r with
+    | some why => .list [.atom "skip", .atom why]
+    | none =>
+      match populate r.tree (r.sources.map (·.1)) with
+      | none => .list [.atom "out-of-fuel"]
+      | some (.readDirError p) => .list [.atom "populate-error", .ofString (pathString p)]
+      | some (.ok ms) =>
+        let outcomes : Option (List (String × SrcOutcome)) := r.sources.mapM fun (p, s) =>
+          let name := (if p.isEmpty then "" else pathString p ++ "/") ++ uiFileName s
+          match (findDir r.tree p).bind fun d => d.files.find? fun f => f.stem = s with
+          | none => none
+          | some f => (translate r.env r.tree ms.get? p f).map fun o =>
+              (name, if o.accepted then SrcOutcome.accepted else SrcOutcome.rejected)
+        match outcomes with
+        | none => .list [.atom "out-of-fuel"]
+        | some os =>
+          let res := cliRun os
+          .list [.atom "cli", .list [.atom "exit", .ofNat res.2.exitCode],
+            .list (.atom "written" :: (sortStrings res.1).map Sexp.ofString)]
 
 /-- specification side: discovered directories = saturation under string imports -/
 def handleSpec (args : List Sexp) : Sexp :=
